@@ -123,20 +123,6 @@ func (s *Sequencer) GetNextBatch(ctx context.Context, req coresequencer.GetNextB
 		maxBytes = req.MaxBytes
 	}
 
-	// Fetch all pending transactions from the queue from the last DA height pull
-	// if enough transactions are available, return the next batch
-	// otherwise, try to fetch more transactions from DA using the next DA height
-	// if the pulled transactions exceeds the maxBytes
-	// push the remaining transactions back to the queue
-	txs, ids, size, timestamp := s.pendingTxs.PopUpToMaxBytes(maxBytes)
-	resp := &coresequencer.GetNextBatchResponse{
-		Batch: &coresequencer.Batch{
-			Transactions: txs,
-		},
-		BatchData: ids,
-		Timestamp: timestamp,
-	}
-
 	// try to fetch more txs from the based layer
 	lastDAHeight := s.daStartHeight
 	lastScannedHeightRaw, err := s.store.Get(ctx, datastore.NewKey(dsLastScannedHeightKey))
@@ -159,6 +145,21 @@ func (s *Sequencer) GetNextBatch(ctx context.Context, req coresequencer.GetNextB
 			lastDAHeight = scanned
 			nextDAHeight = lastDAHeight + 1
 		}
+	}
+
+	// Fetch all pending transactions from the queue from the last DA height pull
+	// if enough transactions are available, return the next batch
+	// otherwise, try to fetch more transactions from DA using the next DA height
+	// if the pulled transactions exceeds the maxBytes
+	// push the remaining transactions back to the queue
+	// (only now that the request is known to be usable: what is popped here is removed from the stored queue)
+	txs, ids, size, timestamp := s.pendingTxs.PopUpToMaxBytes(maxBytes)
+	resp := &coresequencer.GetNextBatchResponse{
+		Batch: &coresequencer.Batch{
+			Transactions: txs,
+		},
+		BatchData: ids,
+		Timestamp: timestamp,
 	}
 OuterLoop:
 	// scan the DA layer only once the queue is drained: what is still queued precedes, in DA order,
